@@ -41,10 +41,87 @@ def strings_of(e, out, depth=0):
             strings_of(x, out, depth + 1)
 
 
+# ===================================================================================================== R-RECORD-GUARD
+def record_guard(chk, rb):
+    """R-RECORD-GUARD: a length guard of the reader of the form `if cursor + K > data.len() { return Err }` must not demand more
+    bytes than the record it protects has: along the straight-line code from the guard's pass edge to the next branch or join,
+    the cursor advances by C bytes (sum of its constant increments); K > C means that a complete record standing at the very
+    end of the chunk - the last cell of a completely filled last row - is rejected, i.e. a document the writer produces does not
+    load.  (K < C is the crash direction and is C02's business.)  Undecided, and never alarmed on: a region in which the cursor is
+    handed to a callee by `&mut`, advanced by a non-constant amount, or not advanced at all."""
+    eb = ExprBuilder(rb)
+    nguards = ndecided = 0
+    for bi, blk in enumerate(rb.blocks):
+        t = blk["term"]
+        if t["k"] != "switch":
+            continue
+        e = eb.operand(t["discr"])
+        if not (e[0] == "bin" and e[1] == "Gt" and e[2][0] == "bin" and e[2][1] in ("Add", "AddO") and e[3][0] == "len"):
+            continue
+        a, c = e[2][2], e[2][3]
+        if c[0] != "const" or a[0] != "var" or not isinstance(c[1], int):
+            continue
+        cur, K = a[1], c[1]
+        pas = [tg for v, tg in t.get("targets", []) if v == 0]
+        if len(pas) != 1 or pas[0] is None:
+            continue
+        # the failing side must end the function with an error without coming back
+        nguards += 1
+        x = pas[0]
+        C = 0
+        decided = True
+        seen = set()
+        while x is not None and x not in seen:
+            seen.add(x)
+            if len(rb.pred[x]) > 1 and x != pas[0]:
+                break
+            bk = rb.blocks[x]
+            for st in bk["stmts"]:
+                if st["k"] != "assign":
+                    continue
+                if st["p"]["l"] == cur and not st["p"].get("p"):
+                    ev = eb.rvalue(st["rv"])
+                    # `o = o + c` (through the checked-add temporary)
+                    if ev[0] == "bin" and ev[1] in ("Add", "AddO") and ev[2] == ("var", cur, a[2]) and ev[3][0] == "const" and isinstance(ev[3][1], int):
+                        C += ev[3][1]
+                    elif ev[0] == "field" and "Add" in str(ev):
+                        m = re.search(r"\('const', (\d+)\)", str(ev))
+                        if m and str(ev).count("'const'") == 1:
+                            C += int(m.group(1))
+                        else:
+                            decided = False
+                    else:
+                        decided = False
+                elif st["rv"]["k"] in ("ref", "rawptr") and st["rv"]["p"]["l"] == cur and st["rv"].get("mut"):
+                    decided = False
+            tt = bk["term"]
+            if tt["k"] == "call":
+                for ar in tt["args"]:
+                    pj = ar.get("move") or ar.get("copy")
+                    if pj is not None and rb.tys(pj["l"]).startswith("&mut usize"):
+                        decided = False
+                x = tt.get("target")
+            elif tt["k"] in ("goto", "assert", "drop"):
+                x = tt.get("target")
+            else:
+                break
+        if not decided or C == 0:
+            continue
+        ndecided += 1
+        ok = K <= C
+        chk.obligation(ok)
+        if not ok:
+            chk.finding("IcyDraw::load_buffer|record-guard|%d>%d" % (K, C), rule="R-RECORD-GUARD", where="%s:%s" % (rb.file, t.get("line")), fn="IcyDraw::load_buffer",
+                        what="the loader refuses the data unless %d more bytes are present, but the record read behind this guard has only %d: a complete "
+                             "record at the very end of the chunk (last cell of a full last row) is rejected" % (K, C))
+    chk.floor("R-RECORD-GUARD", "cursor + K > len guards of the loader", nguards, 1)
+    chk.cov["record_guards_decided"] = ndecided      # no floor: reads moved into a `&mut cursor` helper make a guard undecided, not wrong
+
+
 def run(chk):
     f = F.load()
     g, ip = P.shared(f)
-    chk.rules = ["R-LOSSLESS-PATH", "R-CHUNK-VOCAB", "R-STRING-LEN", "R-NO-TRUNC", "R-DEFAULT-SKIP", "R-CHUNK-GUARD", "R-GUARDED-SETTER"]
+    chk.rules = ["R-LOSSLESS-PATH", "R-CHUNK-VOCAB", "R-STRING-LEN", "R-NO-TRUNC", "R-DEFAULT-SKIP", "R-CHUNK-GUARD", "R-GUARDED-SETTER", "R-RECORD-GUARD"]
     chk.assumptions = ["png / base64 crates transport zTXt chunk text unchanged", "exact reproduction of cell values is not decided (value-level)"]
     reviewed = {}
     try:
@@ -466,5 +543,6 @@ def run(chk):
                             fn="IcyDraw::load_buffer",
                             what="Layer::%s returns early depending on properties.%s, which no longer has its constructor value here (a file-supplied flag can make the loader drop data)" % (nm, gname))
     chk.floor("R-GUARDED-SETTER", "guarded setter calls on the layer under construction", nsites, 2)
+    record_guard(chk, rb)
     return chk.finish("Lossless switch of Buffer::to_bytes, chunk vocabulary (%d keywords), marker/flag constants, %d narrowing casts of the writer, "
                       "Palette::is_default exactness and %d guarded-setter call sites of the loader checked." % (len(keywords), nnarrow, nsites), reviewed=reviewed)
